@@ -932,10 +932,12 @@ def rule_prune(trees):
                     continue
                 stores = [x for x in walk(fn["b"]) if mcall(x) and x["m"] in ("insert_restriction",)]
                 raw = [x for x in walk(fn["b"]) if mcall(x) and x["m"] in ("insert", "or_insert", "or_insert_with") and "map" in expr_str(x["r"])]
-                if stores and not raw:
+                unites = any(mcall(x, "union") for x in walk(fn["b"])) and any(mcall(x, "is_empty") for x in walk(fn["b"]))
+                if (stores and not raw) or (raw and unites):
                     res.ok()
                 else:
-                    res.bad("S-PRUNE:mapped:stores-directly", where, "PrefixTree%d::mapped stores subtrees without going through insert_restriction" % n)
+                    res.bad("S-PRUNE:mapped:stores-directly", where,
+                            "PrefixTree%d::mapped stores mapped subtrees directly: two keys with the same image overwrite each other (no union), or empty subtrees are kept" % n)
             elif need == "callback":
                 if n <= 1:
                     continue
